@@ -282,6 +282,10 @@ def run(ctx: Ctx):
     from .c06 import release_rules
     release_rules(ctx, "R03.9")
     ctx.floor("R03.9", 2)
+    # ---------------------------------------------------------------- R03.11 the booked (and credited) amount is what is left in the slot
+    from .c01 import slot_increment_rule
+    slot_increment_rule(ctx, "R03.11")
+    ctx.floor("R03.11", 1)
     ctx.floor("R03.1", 5)
     ctx.floor("R03.2", 7)
     ctx.floor("R03.3", 1)
